@@ -265,13 +265,10 @@ theorem processFile_series {bs : Nat} (hbs : 0 < bs) (olds news : List (String Ã
         have hnil : replay bs (olds.map (Â·.2)).toArray src ops' = [] := List.eq_nil_of_length_eq_zero (by omega)
         rw [hnil, List.append_nil] at hrep
         exact hrep
-      have hflen : (freshEnv bs olds news none).pool.flen t = .ok old.size := by
-        simp only [freshEnv, plainPool, hl, toList_length]
-      have hread : (freshEnv bs olds news none).pool.read t 0 old.size = .ok old.toList := by
-        simp only [freshEnv, plainPool, hl, List.drop_zero]
-        rw [â† toList_length old, List.take_length]
+      have hread : (freshEnv bs olds news none).pool.readAll t = .ok old.toList := by
+        simp only [freshEnv, plainPool, hl]
       rw [hfull, ok_bind']
-      simp only [hflen, hread, skipOps_ops, ok_bind', hold]
+      simp only [hread, skipOps_ops, ok_bind', hold]
       exact âŸ¨_, rfl, rfl, rflâŸ©
 
 /-! ### all files -/
